@@ -108,6 +108,9 @@ class Session:
     def run_unit(self, hfile, fname, args, start=None, max_paths=10**7, active=None, summary_mode=True,
                  deadline=None, nsamples=2, step_budget=None, hang_label=None, twin=False):
         self.set_summary(summary_mode)
+        broken = summary_mode and isinstance(self.summary_info, dict) and 'failed' in self.summary_info
+        if broken:
+            max_paths = min(max_paths, 30)      # categorize cannot be summarised: bug hunting only, do not burn the budget
         sym, con = self.load(hfile)
         ST = R.ST
         ST.active = active
@@ -171,8 +174,8 @@ class Session:
         st1 = ST.stats.as_dict()
         out['paths'] = res.npaths
         out['stats'] = {k: st1[k] - st0[k] for k in st1}
-        out['complete'] = res.complete
-        out['reason'] = res.reason
+        out['complete'] = res.complete and not broken
+        out['reason'] = res.reason if not broken else 'categorize could not be summarised (%s)' % self.summary_info['failed']
         out['wall'] = res.wall
         out['status'] = dict(out['status'])
         return out
